@@ -3,10 +3,12 @@ package main
 import (
 	"bytes"
 	"context"
+	"errors"
 	"fmt"
 	"net"
 	"os"
 	"path/filepath"
+	"sync/atomic"
 	"time"
 
 	"verifharness/core"
@@ -14,6 +16,7 @@ import (
 	"github.com/bbockelm/cedar/commands"
 	"github.com/bbockelm/cedar/message"
 	"github.com/bbockelm/cedar/security"
+	"github.com/bbockelm/cedar/server"
 	"github.com/bbockelm/cedar/stream"
 )
 
@@ -25,11 +28,12 @@ type env struct {
 }
 
 type shape struct {
-	name  string
-	plain bool // plain stream/message operations: the error must be the context's own
-	mk    func() (*env, error)
-	f1    func(ctx context.Context, e *env, c net.Conn) error
-	f2    func(ctx context.Context, e *env, c net.Conn) error
+	name        string
+	selfClosing bool // the instrumented party closes its connection when its work is done (server accept loop)
+	plain       bool // plain stream/message operations: the error must be the context's own
+	mk          func() (*env, error)
+	f1          func(ctx context.Context, e *env, c net.Conn) error
+	f2          func(ctx context.Context, e *env, c net.Conn) error
 }
 
 func baseCfg(methods []security.AuthMethod, auth, enc security.SecurityLevel) security.SecurityConfig {
@@ -143,6 +147,46 @@ func hsServer(ctx context.Context, e *env, c net.Conn) error {
 		return err
 	}
 	return pingServer(ctx, st)
+}
+
+// serveLoop runs the server side the way a daemon does: through the accept loop
+// server.Serve, with ctx being the context handed to Serve. The per-connection work
+// (handshake + command) is over when the server has closed the connection.
+func serveLoop(ctx context.Context, e *env, c net.Conn) error {
+	cfg := e.srv
+	srv := server.New(&cfg)
+	var okFlag int32
+	srv.Handle(commands.DC_NOP, func(ctx context.Context, sc *server.Conn) error {
+		err := pingServer(ctx, sc.Stream)
+		if err == nil {
+			atomic.StoreInt32(&okFlag, 1)
+		}
+		return err
+	})
+	l := newOneShotListener(c)
+	defer l.Close()
+	serveDone := make(chan error, 1)
+	go func() { serveDone <- srv.Serve(ctx, l) }()
+	closed := c.(*sconn).closeCh
+	select {
+	case <-closed:
+	case err := <-serveDone:
+		if !l.accepted() {
+			_ = c.Close()
+			if err == nil {
+				err = errors.New("accept loop ended before the connection was served")
+			}
+			return err
+		}
+		<-closed // Serve has returned; the connection's goroutine must finish too
+	}
+	if atomic.LoadInt32(&okFlag) == 1 {
+		return nil
+	}
+	if err := ctx.Err(); err != nil {
+		return fmt.Errorf("connection closed by the server before the command completed: %w", err)
+	}
+	return errors.New("connection closed by the server before the command completed")
 }
 
 func handshakeShape(name string, mk func() (*env, error)) shape {
@@ -467,6 +511,7 @@ func allShapes() []shape {
 		{name: "frames-aes", plain: true, mk: mkPlain, f1: frames1(true), f2: frames2(true)},
 		{name: "frames-aes-swapped-conn", plain: true, mk: mkPlain, f1: frames1(true, true), f2: frames2(true, true)},
 		{name: "hs-claimtobe-swapped-conn", mk: mkSimple([]security.AuthMethod{security.AuthClaimToBe}, security.SecurityRequired, security.SecurityRequired), f1: hsClientSw, f2: hsServerSw},
+		{name: "hs-claimtobe-via-server.Serve", selfClosing: true, mk: mkSimple([]security.AuthMethod{security.AuthClaimToBe}, security.SecurityRequired, security.SecurityRequired), f1: hsClient, f2: serveLoop},
 		{name: "message", plain: true, mk: mkPlain, f1: msg1, f2: msg2},
 		{name: "secret-file", plain: true, mk: mkFile, f1: file1, f2: file2},
 		handshakeShape("hs-noauth-clear", mkSimple(none, security.SecurityNever, security.SecurityNever)),
